@@ -513,7 +513,7 @@ def record_traces(ad, ntraces, nev, seed, tag):
         track = rng.random() < 0.6
         flags = FLAG_SETTINGS[t % len(FLAG_SETTINGS)] if t % 2 else ()
         allow_occupied = t % 4 == 3
-        db = t % 3 == 2
+        db = t % 4 == 2
         w = ad.build({"track": track, "sflags": {x: (x in flags) for x in "FGPS"}, "db": db})
         ev = []
         for _ in range(nev):
@@ -601,13 +601,21 @@ def report_divs(rep, divs, cfg, geom, symmetry):
         rep.violation(key_of(d), what_of(d), dict(d, direction="replay", config=cfg, geom=geom, symmetry=symmetry))
 
 
-def sample_selector(graph, rng, n_deep, n_roots=None, p_move=1.0):
+def sample_selector(graph, rng, n_deep, n_roots=None, p_move=1.0, db_share=0.5):
     """edges of a seeded sample of source states: n_roots initial states (None: all; stratified over tracking x
     database-loaded), n_deep deeper states; of the state-changing edges of a selected state a share p_move is kept
-    (at least one per action name), refusals and look-ups (run in place, cheap) are all kept"""
+    (at least one per action name), refusals and look-ups (run in place, cheap) are all kept; db_share: share of the
+    sampled states that descend from a database-loaded initial state (a world that costs a real Database.load)"""
     roots = sorted({e["_fk"] for e in graph.edges if e.get("lvl", 1) == 1})
+    isdb = {}
+    for e in graph.edges:
+        if e["_fk"] not in isdb:
+            isdb[e["_fk"]] = any(x == LABEL_DB for x in e["from"]["label"])
     deep = sorted({e["_fk"] for e in graph.edges if e.get("lvl", 1) > 1})
-    keep = set(rng.sample(deep, min(n_deep, len(deep))))
+    deep_db = [k for k in deep if isdb[k]]
+    deep_no = [k for k in deep if not isdb[k]]
+    n_db = min(len(deep_db), int(round(n_deep * db_share)))
+    keep = set(rng.sample(deep_db, n_db)) | set(rng.sample(deep_no, min(n_deep - n_db, len(deep_no))))
     if n_roots is None or n_roots >= len(roots):
         keep |= set(roots)
     else:
@@ -621,14 +629,16 @@ def sample_selector(graph, rng, n_deep, n_roots=None, p_move=1.0):
             strata.setdefault((bool(f["track"]), any(x == LABEL_DB for x in f["label"])), []).append(k)
         for ks in strata.values():
             rng.shuffle(ks)
-        order = sorted(strata)
-        i = 0
-        while n_roots > 0 and any(strata.values()):
-            ks = strata[order[i % len(order)]]
-            if ks:
-                keep.add(ks.pop())
-                n_roots -= 1
-            i += 1
+        quota = {True: int(round(n_roots * db_share)), False: n_roots - int(round(n_roots * db_share))}
+        for want_db in (False, True):
+            order = [k for k in sorted(strata) if k[1] == want_db]
+            i = 0
+            while order and quota[want_db] > 0 and any(strata[k] for k in order):
+                ks = strata[order[i % len(order)]]
+                if ks:
+                    keep.add(ks.pop())
+                    quota[want_db] -= 1
+                i += 1
     chosen = set()
     by_state = {}
     for e in graph.edges:
@@ -705,8 +715,8 @@ def emit_and_replay(rep, cfgfile, label, variants, rng):
         ad = CoreAdapter(cfg, geom=geom, symmetry=symmetry)
         sel = None
         if n_states is not None:
-            n_deep, n_roots, p_move = n_states
-            sel = sample_selector(g, rng, n_deep, n_roots, p_move)
+            n_deep, n_roots, p_move, db_share = n_states
+            sel = sample_selector(g, rng, n_deep, n_roots, p_move, db_share)
         stats, divs = replay_all(g, ad, select=sel)
         if stats["replayed"] == 0:
             raise tlc.MachineryError("empty replay batch " + label)
@@ -738,13 +748,13 @@ def run(rep, tier, seed):
 
     # 2. spec -> code
     if thorough:
-        emit_and_replay(rep, "FuelShuffle_emit_thorough.cfg", "coreS-depth3", (("hex", "full", (200, None, 1.0)), ("hex", "third", (20, 8, 0.5)), ("cartesian", "full", (20, 8, 0.5))), rng)
-        emit_and_replay(rep, "FuelShuffle_emitT.cfg", "coreT-depth3", (("hex", "full", (40, None, 0.5)), ("hex", "third", (10, 4, 0.5)), ("cartesian", "full", (10, 4, 0.5))), rng)
+        emit_and_replay(rep, "FuelShuffle_emit_thorough.cfg", "coreS-depth3", (("hex", "full", (60, None, 1.0, 0.3)), ("hex", "third", (16, 8, 0.5, 0.25)), ("cartesian", "full", (16, 8, 0.5, 0.25))), rng)
+        emit_and_replay(rep, "FuelShuffle_emitT.cfg", "coreT-depth3", (("hex", "full", (30, None, 0.5, 0.25)), ("hex", "third", (10, 4, 0.5, 0.25)), ("cartesian", "full", (10, 4, 0.5, 0.25))), rng)
     else:
-        emit_and_replay(rep, "FuelShuffle_emit.cfg", "coreS-depth3", (("hex", "full", (6, 8, 0.5)), ("hex", "third", (2, 3, 0.4)), ("cartesian", "full", (2, 3, 0.4))), rng)
+        emit_and_replay(rep, "FuelShuffle_emit.cfg", "coreS-depth3", (("hex", "full", (4, 6, 0.4, 0.34)), ("hex", "third", (2, 3, 0.3, 0.34)), ("cartesian", "full", (2, 3, 0.3, 0.34))), rng)
 
     # 3. code -> spec
-    plans = [("FuelShuffle_trace_M.cfg", "coreM-hex-full", "hex", "full", 100 if thorough else 36, 150 if thorough else 45)]
+    plans = [("FuelShuffle_trace_M.cfg", "coreM-hex-full", "hex", "full", 100 if thorough else 32, 150 if thorough else 40)]
     if thorough:
         plans += [("FuelShuffle_trace_M.cfg", "coreM-hex-third", "hex", "third", 60, 150),
                   ("FuelShuffle_trace_N.cfg", "coreN-cartesian", "cartesian", "full", 40, 250),
@@ -896,7 +906,7 @@ def _mini_check(g, cfg, tcfg, seed, with_traces=True):
     rng = random.Random(seed)
     for vi, (geom, sym, n) in enumerate((("hex", "full", 8), ("hex", "third", 6))):
         ad = CoreAdapter(cfg, geom=geom, symmetry=sym)
-        stats, divs = replay_all(g, ad, select=sample_selector(g, rng, n, 8 if vi == 0 else 4, 0.4))
+        stats, divs = replay_all(g, ad, select=sample_selector(g, rng, n, 8 if vi == 0 else 4, 0.4, 0.25))
         keys_r |= {key_of(d) for d in divs}
     if with_traces:
         rep = Report("C14", "selftest", seed)
